@@ -277,3 +277,81 @@ def decTiger (lines : List Str) : Option TigerSentence := do
   | _ => none
 
 end TT.Spec
+
+namespace TT.Spec
+open TT TT.Tree
+
+/-! ### specification grammar of bracketed treebank text (any whitespace layout)
+
+  file  := (junk | group)*            junk = anything outside a group except "("
+  group := "(" ws* label? body ")"     the root label may be empty
+  body  := ws+ word ws*                (a token: label followed by whitespace and a word)
+         | ws* (node ws*)+             (a constituent: one or more nodes)
+  node  := "(" ws* label body ")"   |   "(" label ")"   (the latter only with brackets_emptypos: the label is the word)
+-/
+
+def isWsC (c : Char) : Bool := pyIsSpace c
+def isTokC (c : Char) : Bool := !(pyIsSpace c) && c != '(' && c != ')'
+
+def skipWs (s : Str) : Str := s.dropWhile isWsC
+
+mutual
+/-- parse one node starting at "(" ; returns (tree with token numbers from `cnt`, rest, next cnt) -/
+def spNode (emptyPos root : Bool) : Nat → Str → Nat → Option (Tree × Str × Nat)
+  | 0, _, _ => none
+  | fuel + 1, '(' :: r, cnt =>
+    let r1 := skipWs r
+    let label := r1.takeWhile isTokC
+    let r2 := r1.drop label.length
+    if label.isEmpty && !root then none else
+    -- "(label)" : empty POS
+    match r2 with
+    | ')' :: r3 =>
+      if emptyPos && !label.isEmpty then
+        some (leaf cnt { label := DEFAULT_LABEL, word := some label, edge := some DEFAULT_EDGE, morph := some DEFAULT_MORPH }, r3, cnt + 1)
+      else none
+    | _ =>
+      let r3 := skipWs r2
+      let hadWs := r3.length < r2.length
+      match r3 with
+      | '(' :: _ =>
+        match spKids emptyPos fuel r3 cnt [] with
+        | some (ks, rest, cnt') =>
+          if ks.isEmpty then none
+          else some (node (if label.isEmpty then { label := DEFAULT_ROOT } else { label := label, edge := some DEFAULT_EDGE, morph := some DEFAULT_MORPH }) ks, rest, cnt')
+        | none => none
+      | c :: _ =>
+        if hadWs && isTokC c && !label.isEmpty then
+          let word := r3.takeWhile isTokC
+          match skipWs (r3.drop word.length) with
+          | ')' :: r4 => some (leaf cnt { label := label, word := some word, edge := some DEFAULT_EDGE, morph := some DEFAULT_MORPH }, r4, cnt + 1)
+          | _ => none
+        else none
+      | [] => none
+  | _, _, _ => none
+/-- nodes until the closing parenthesis of the parent -/
+def spKids (emptyPos : Bool) : Nat → Str → Nat → List Tree → Option (List Tree × Str × Nat)
+  | 0, _, _, _ => none
+  | fuel + 1, s, cnt, acc =>
+    match skipWs s with
+    | ')' :: r => some (acc.reverse, r, cnt)
+    | '(' :: r =>
+      match spNode emptyPos false fuel ('(' :: r) cnt with
+      | some (k, rest, cnt') => spKids emptyPos fuel rest cnt' (k :: acc)
+      | none => none
+    | _ => none
+end
+
+/-- all groups of a text; `none` when some group is ill-formed -/
+def spGroups (emptyPos : Bool) : Nat → Str → List Tree → Option (List Tree)
+  | 0, _, _ => none
+  | _, [], acc => some acc.reverse
+  | fuel + 1, '(' :: r, acc =>
+    match spNode emptyPos true (2 * r.length + 4) ('(' :: r) 1 with
+    | some (t, rest, _) => spGroups emptyPos fuel rest (t :: acc)
+    | none => none
+  | fuel + 1, _ :: r, acc => spGroups emptyPos fuel r acc
+
+def specBrackets (emptyPos : Bool) (text : Str) : Option (List Tree) := spGroups emptyPos (2 * text.length + 2) text []
+
+end TT.Spec
